@@ -250,4 +250,48 @@ def logCollect (sl : Slice) : Log :=
   let l := sl.svcs.foldl logSvc l
   sl.facs.foldl logFac l
 
+/-! ### the ASM path
+
+`_collect_attributes_from_asm` (both collectors): rebuild an ExperimentTopology from the serialised model,
+`t.validate()`, then `_collect_attributes_from_topo(t)`. What `validate()` contributes to the collectors is the site it
+records on a service that spans exactly one site and declared none (`NetworkService.__validate_nstype_constraints`). -/
+
+/-- a service as the serialised model carries it: declared site (or none), plus what `validate()` looks at -/
+structure RawSvc where
+  svc : SvcS
+  /-- site of the owner node of every attached interface, in the order validate() traces them -/
+  osites : List String
+  /-- `ServiceConstraints[type].num_sites != NO_LIMIT` (only then are the owner sites gathered) -/
+  limited : Bool
+  deriving Repr
+
+/-- `__validate_nstype_constraints`: `if len(sites) == 1: if not self.site: self.site = sites.pop()` -/
+def inferSite (r : RawSvc) : SvcS :=
+  if r.limited then
+    match r.osites.foldl addSet [] with
+    | [x] => if r.svc.site = "" then { r.svc with site := x } else r.svc
+    | _ => r.svc
+  else r.svc
+
+structure RawSlice where
+  nodes : List NodeS
+  svcs : List RawSvc
+  facs : List String
+  ifaces : List Iface
+  deriving Repr
+
+/-- the slice as the collectors see it once `validate()` has run -/
+def recordSites (rs : RawSlice) : Slice :=
+  { nodes := rs.nodes, svcs := rs.svcs.map inferSite, facs := rs.facs, ifaces := rs.ifaces }
+
+/-- `ResourceAuthZAttributes._collect_attributes_from_asm`: validate, then collect -/
+def collectAsm (rs : RawSlice) : Attrs := collect (recordSites rs)
+
+/-- `LogCollector._collect_attributes_from_asm`: validate, then collect -/
+def logCollectAsm (rs : RawSlice) : Log := logCollect (recordSites rs)
+
+/-- the model a validated topology serialises to: the inferred sites are stored on the services -/
+def stamp (rs : RawSlice) : RawSlice :=
+  { rs with svcs := rs.svcs.map fun r => { r with svc := inferSite r } }
+
 end FimVerif.Authz
